@@ -30,7 +30,7 @@ EXHAUSTIVE_SUBDOMAINS = []
 ASSUMPTIONS = ["positions are judged only for the simulated (cleanly encoded) aircraft; noise addresses are judged for robustness, "
                "listing and the Comm-B rule only", "between 59 s and 61 s of silence neither presence nor absence is judged",
                "longitude compared modulo 360; error measured as great-circle angle"]
-REQUIRED = ["calls", "receiver_location_given_as_strings", "same_squitter_string_repeated", "aircraft_exactly_over_pole_equator_antimeridian", "idle_call_with_no_messages", "batch_processed_at_tnow_exactly_zero", "transitions", "branch_ref", "branch_global", "branch_none", "evicted", "reappeared", "commb_attached", "commb_unknown_ignored",
+REQUIRED = ["calls", "receiver_location_given_as_strings", "landed_at_the_receivers_airfield_during_a_position_outage", "same_squitter_string_repeated", "aircraft_exactly_over_pole_equator_antimeridian", "idle_call_with_no_messages", "batch_processed_at_tnow_exactly_zero", "transitions", "branch_ref", "branch_global", "branch_none", "evicted", "reappeared", "commb_attached", "commb_unknown_ignored",
             "surface_update", "airborne_update", "case_compare", "run_loop", "gap_lt10", "gap_10_180", "gap_gt180", "cross_antimeridian",
             "cross_equator", "cross_nl", "second_tracker_alive"]
 
@@ -204,6 +204,8 @@ def gen_history(rng, scen_name=None, window=False):
         a.t = t
     mute = {}  # addr -> silent until
     outage_until = -1.0
+    relocate = False
+    relocations = [0]
     transitions = [0]
     exact_repeats = [0]
     for _ in range(n):
@@ -214,8 +216,24 @@ def gen_history(rng, scen_name=None, window=False):
             a = rng.choice(acs)
             events.append((t, "adsb", other_adsb(rng, a), a.addr, None))
             continue
+        if relocate and outage_until > 0:
+            relocate = False
+            # (only aircraft whose last position message is more than 185 s old: a younger fix is the reference of the next decode,
+            #  and a jump of miles within seconds is outside the premise of reference decoding)
+            cand = [a_ for a_ in acs if t - getattr(a_, "last_pos_t", -1e18) > 185.0]
+            if rx is not None and not no_rx and cand and rng.random() < 0.6:
+                # ... and during the outage one of the aircraft - wherever on the globe its last fix was - has flown on and LANDED
+                # at the receiver's airfield: its next positions are surface positions within reach of the receiver, while the
+                # last fix in its record is stale and may be a quarter of the globe away
+                a = rng.choice(cand)
+                a.lat, a.lon = cpr.destination(rx[0], rx[1], rng.uniform(0, 360), rng.uniform(0, 25))
+                a.surface, a.gs, a.turn, a.t = True, rng.uniform(0, 30), 0, t
+                if 87.0 < abs(a.lat) <= WINDOW_HI:
+                    a.tainted = True
+                relocations[0] += 1
         if rng.random() < 0.012:
             outage_until = t + rng.choice((200, 400, 1200, 2400))
+            relocate = True
         if c < 0.80:
             t += rng.uniform(0.05, 1.5)
         elif c < 0.93:
@@ -246,6 +264,7 @@ def gen_history(rng, scen_name=None, window=False):
                     a.turn = 3.0   # stay in the pattern around the airfield
                 transitions[0] += 1
             m = pos_msg(rng, a)
+            a.last_pos_t = t
             events.append((t, "adsb", m, a.addr, ("pos", a.lat, a.lon, a.surface, a.tainted, a.scen)))
         elif r < 0.78:
             if rng.random() < 0.25 and getattr(a, "last_other", None):
@@ -283,7 +302,7 @@ def gen_history(rng, scen_name=None, window=False):
         events = [(t_ - pivot,) + tuple(rest) for (t_, *rest) in events]
         zero = True
     return {"events": events, "rx": rx, "commb_only": commb_only, "transitions": transitions[0], "clock_through_zero": zero,
-            "exact_repeats": exact_repeats[0]}
+            "exact_repeats": exact_repeats[0], "relocations": relocations[0]}
 
 
 COMMB_FIELDS = {"tas": "tas50", "roll": "roll50", "rtrk": "rtrk50", "trk50": "trk50", "gs50": "gs50", "ias": "ias60", "hdg": "hdg60",
@@ -527,6 +546,8 @@ def m_history(ctx, case):
         ctx.hit("gap_lt10" if g < 10 else "gap_10_180" if g <= 180 else "gap_gt180")
     if hist["transitions"]:
         ctx.hit("transitions", hist["transitions"])
+    if hist.get("relocations"):
+        ctx.hit("landed_at_the_receivers_airfield_during_a_position_outage", hist["relocations"])
     if hist.get("exact_repeats"):
         ctx.hit("same_squitter_string_repeated", hist["exact_repeats"])
     up, ok = play(ctx, hist, lower=False, judge=True)
